@@ -27,6 +27,9 @@ type Deep struct {
 	PP  **Inner
 	SPS []*[]int
 	SSS [][][]string
+	MP  map[string]*Inner
+	MPS map[string]*[]int
+	MIf map[string]interface{}
 	In  struct{ L [][]string }
 }
 
@@ -98,6 +101,17 @@ func genDeep(g *G) *Deep {
 	}
 	if g.pct("sss") < 60 {
 		d.SSS = [][][]string{{strs(), strs()}, {}}
+	}
+	if g.pct("mp") < 70 {
+		d.MP = map[string]*Inner{"a": g.inner(), "b": g.inner(), "c": nil, "d": g.inner()}
+	}
+	if g.pct("mps") < 50 {
+		x, y := ints(), ints()
+		d.MPS = map[string]*[]int{"x": &x, "n": nil, "y": &y}
+	}
+	if g.pct("mif") < 60 {
+		// zero values held by interfaces are values, not absence
+		d.MIf = map[string]interface{}{"zero": 0.0, "empty": "", "false": false, "nil": nil, "s": []interface{}{0.0, "", false}}
 	}
 	if g.pct("inl") < 60 {
 		d.In.L = [][]string{strs(), strs()}
